@@ -69,6 +69,9 @@ type SpecDB struct {
 	Funcs  map[string]*FuncSpec
 	Preds  map[string]*Pred
 	Ghosts []GhostDecl
+	HeapTypes []string // named struct types that only ever live in their own heap objects
+	Globals []Clause   // facts about package-level variables assumed at every function entry
+	GlobalPkg []string
 	Errors []string
 }
 
@@ -303,6 +306,20 @@ func (db *SpecDB) LoadFile(path string, pkg string) error {
 				continue
 			}
 			db.Preds[p.Name] = p
+		case "heaptype":
+			tn := strings.TrimSpace(rest)
+			if !strings.Contains(tn, ".") && pkg != "" {
+				tn = pkg + "." + tn
+			}
+			db.HeapTypes = append(db.HeapTypes, tn)
+		case "global":
+			c, err := parseClause(rest, pos)
+			if err != nil {
+				fail("%v", err)
+				continue
+			}
+			db.Globals = append(db.Globals, c)
+			db.GlobalPkg = append(db.GlobalPkg, pkg)
 		case "ghost":
 			// ghost field <TypeName>.<field> <type>
 			ws := strings.Fields(rest)
